@@ -268,3 +268,85 @@ func forConditionTokensOracle(run *Run, n int) {
 		})
 	}
 }
+
+// conditionalBranchTokensOracle: a branch of a conditional is a value of the attribute's type: the tokens
+// inside a collection written as a branch (c ? <value> : <other>) are the tokens of the same value written
+// directly, moved by the length of what stands in front of it.
+func conditionalBranchTokensOracle(run *Run, n int) {
+	ctx := context.Background()
+	type shape struct {
+		t     cty.Type
+		value string
+		other string
+	}
+	shapes := []shape{
+		{cty.List(cty.String), `[local.src, "x"]`, `[]`},
+		{cty.List(cty.String), `["a", local.src, local.other]`, `["z"]`},
+		{cty.Map(cty.String), `{ k = "v" }`, `{}`},
+		{cty.Map(cty.String), `{ k = local.src, "q k" = "v" }`, `{ z = "1" }`},
+		{cty.Set(cty.Number), `[1, 2, local.n]`, `[]`},
+		{cty.Object(map[string]cty.Type{"a": cty.String, "b": cty.Number}), `{ a = local.src, b = 2 }`, `{ a = "", b = 0 }`},
+		{cty.Tuple([]cty.Type{cty.String, cty.Bool}), `[local.src, true]`, `["", false]`},
+		{cty.String, `"pre-${local.src}"`, `"z"`},
+		{cty.Number, `local.n`, `7`},
+	}
+	decls := "locals {\n  src = \"s\"\n  other = \"o\"\n  n = 1\n}\n"
+	localsBlock := &schema.BlockSchema{Body: &schema.BodySchema{AnyAttribute: &schema.AttributeSchema{
+		Address:    &schema.AttributeAddrSchema{Steps: schema.Address{schema.StaticStep{Name: "local"}, schema.AttrNameStep{}}, ScopeId: "local", AsExprType: true, AsReference: true},
+		Constraint: schema.AnyExpression{OfType: cty.DynamicPseudoType}}}}
+	tokensOf := func(t cty.Type, line string) (map[int]string, bool) {
+		sch := &schema.BodySchema{Blocks: map[string]*schema.BlockSchema{"locals": localsBlock},
+			Attributes: map[string]*schema.AttributeSchema{"attr": {IsOptional: true, Constraint: schema.AnyExpression{OfType: t}}}}
+		w := newWorld()
+		pd := w.AddPath("root", sch, map[string]string{"main.tf": line, "decls.tf": decls}, nil)
+		w.Collect()
+		d, _ := w.Dec.Path(pd.Path)
+		res := safeCall("SemanticTokensInFile", func() (interface{}, error) { return d.SemanticTokensInFile(ctx, "main.tf") })
+		run.Res.Evaluations++
+		if res.Panic != "" || res.Err != nil {
+			return nil, false
+		}
+		out := map[int]string{}
+		for _, tk := range res.Val.([]lang.SemanticToken) {
+			out[tk.Range.Start.Byte] = fmt.Sprintf("%s%v/%d", tk.Type, tk.Modifiers, tk.Range.End.Byte-tk.Range.Start.Byte)
+		}
+		return out, true
+	}
+	for i := 0; i < n; i++ {
+		r := rand.New(rand.NewSource(subSeed(run.Res.Seed, 1414000+i)))
+		sh := pick(r, shapes)
+		cond := pick(r, []string{"true", "false", "1 > 2", "local.n == 1"})
+		direct := "attr = " + sh.value + "\n"
+		var line string
+		var at int
+		if r.Intn(2) == 0 {
+			line = "attr = " + cond + " ? " + sh.value + " : " + sh.other + "\n"
+			at = len("attr = " + cond + " ? ")
+		} else {
+			line = "attr = " + cond + " ? " + sh.other + " : " + sh.value + "\n"
+			at = len("attr = " + cond + " ? " + sh.other + " : ")
+		}
+		dt, ok1 := tokensOf(sh.t, direct)
+		ct, ok2 := tokensOf(sh.t, line)
+		if !ok1 || !ok2 {
+			continue
+		}
+		d0 := len("attr = ")
+		var diffs []string
+		for off := 0; off < len(sh.value); off++ {
+			a, b := dt[d0+off], ct[at+off]
+			if a != b {
+				diffs = append(diffs, fmt.Sprintf("at %q: written directly %q, as a branch %q", sh.value[off:], a, b))
+			}
+		}
+		if len(dt) > 1 {
+			run.Distinct(line)
+			run.Count("conditional_branches_with_tokens")
+		}
+		if len(diffs) > 0 {
+			run.Violate(Violation{Key: "C13/conditional-branch-tokens-differ-from-direct-value", Rule: "a branch of a conditional is marked like the same value written directly",
+				Func: "Any.semanticTokensForConditionalExpr", Detail: fmt.Sprintf("%s under %s: %s", strings.TrimSpace(line), sh.t.FriendlyName(), strings.Join(diffs, "; ")),
+				Replay: map[string]interface{}{"src": line, "decls.tf": decls, "type": sh.t.FriendlyName()}})
+		}
+	}
+}
